@@ -150,6 +150,10 @@ def render(spec):
             any_body = True
             w.append("    def pub(self):\n        LOG.append(('body', 'pub'))\n        return 2\n")
             w.append("    def __call__(self):\n        LOG.append(('body', '__call__'))\n        return 2\n")
+        if ch.get("extends_prop"):
+            any_body = True
+            # the child extends the INHERITED property with a setter of its own, re-using the base's getter and deleter
+            w.append("    @Root.p.setter\n    def p(self, value):\n        LOG.append(('body', 'p.set'))\n")
         if ch["adds"]:
             any_body = True
             w.append("    def extra(self):\n        LOG.append(('body', 'extra'))\n        return 3\n")
@@ -217,13 +221,17 @@ def specs(tier):
                     for overrides, adds in ((False, False), (True, True)) if tier == "quick" else ((False, False), (True, False), (False, True), (True, True)):
                         out.append({"base": "DBC", "style": style, "invs": invs,
                                     "child": {"invs": cinvs, "ctor": ctor, "overrides": overrides, "adds": adds}})
+                        if ctor in ("none", "first") and not overrides and style != "dataclass":
+                            out.append({"base": "DBC", "style": style, "invs": invs,
+                                        "child": {"invs": cinvs, "ctor": ctor, "overrides": overrides, "adds": adds, "extends_prop": True}})
     return out
 
 
 def feats(spec, op=None, seq=None):
     ch = spec["child"]
     return {"base": spec["base"], "style": spec["style"], "invs": "".join(spec["invs"]),
-            "child": None if not ch else "{}|{}|{}{}".format("".join(ch["invs"]), ch["ctor"], "o" if ch["overrides"] else "-", "a" if ch["adds"] else "-"),
+            "child": None if not ch else "{}|{}|{}{}{}".format("".join(ch["invs"]), ch["ctor"], "o" if ch["overrides"] else "-", "a" if ch["adds"] else "-",
+                                                              "x" if ch.get("extends_prop") else ""),
             "child_invs": None if not ch else "".join(ch["invs"]), "ctor": None if not ch else ch["ctor"],
             "op": op, "first_op": seq[0] if seq else None,
             "has_setattr_inv": any(c in "SA" for c in spec["invs"] + (ch["invs"] if ch else [])),
@@ -399,6 +407,41 @@ def check_spec(spec, acc, depth):
             if bad:
                 acc.violation(core.Violation(PROP, bad[0], feats(spec, "construct"), bad[1] + " log={}".format(log),
                                              spec={"spec": spec, "seq": [], "falsy": [fk]}, script=src))
+        if spec["child"]:
+            # Base and child share the wrappers of the members the child does not override. Use them on an instance of the
+            # base class first, then judge the child histories below; afterwards judge the base instance with the base's lists.
+            def warmup_and_base():
+                ns["FALSY"]["k"] = -1
+                ns["CNT"]["n"] = 0
+                r = ns["Root"]()
+                res = []
+                for opname in ("pub", "p.get", "p.set", "setattr", "__call__"):
+                    if opname in ("p.set", "setattr") and spec["style"] == "namedtuple":
+                        continue
+                    ns["CNT"]["n"] = 0
+                    del ns["LOG"][:]
+                    exc = None
+                    try:
+                        OPS[opname][1](r, ns)
+                    except Exception as e:
+                        exc = e
+                    res.append((opname, list(ns["LOG"]), exc))
+                return res
+            root_names = inv_names("R", spec["invs"])
+            rcall = [n for n in root_names if n[-1] in "CA"]
+            rsett = [n for n in root_names if n[-1] in "SA"]
+            root_spec = dict(spec, child=None)
+
+            def judge_root(label):
+                for opname, log, exc in core.fresh_ctx_run(warmup_and_base):
+                    acc.case((key0, "root_instance", label, opname), True, len(log), type(exc).__name__ if exc else "ok")
+                    bad = judge_op(root_spec, opname, log, exc, None, rcall, rsett)
+                    if bad:
+                        acc.violation(core.Violation(PROP, bad[0], dict(feats(spec, opname), on_instance_of="Root", phase=label),
+                                                     "instance of the BASE class ({}): {}\n log={}".format(label, bad[1], log),
+                                                     spec={"spec": spec, "seq": [opname], "falsy": [None], "root": label}, script=src))
+                        return
+            judge_root("before_child_instances")
         ops = ops_for(spec)
         # histories: every sequence of <= depth operations; falsy point in the last operation (every k) and,
         # for recovery, in the first operation with the following ones all-true
@@ -428,6 +471,8 @@ def check_spec(spec, acc, depth):
                             "history {} falsy={} step {}: {}\n log={}".format(seq, falsy, i, bad[1], log),
                             spec={"spec": spec, "seq": list(seq), "falsy": list(falsy)}, script=src))
                         break
+        if spec["child"]:
+            judge_root("after_child_instances")
         acc.sample({"spec": spec, "ops": ops}, cap=2)
     finally:
         core.unload_source(ns)
